@@ -721,6 +721,18 @@ func checkTool(c ToolCase) error {
 		if serr != nil || !bytes.Equal(stdout, want) {
 			return harness.Violatef("c11/tool-stdout", "disivg to stdout differs from Disassemble for input %d (%v)", i, serr)
 		}
+		// -o once more with the process's temporary directory on another file system than the
+		// output file (where there is one)
+		if st, err := os.Stat("/dev/shm"); err == nil && st.IsDir() {
+			cmd := exec.Command(tool, "-o", out, src)
+			cmd.Env = append(os.Environ(), "TMPDIR=/dev/shm")
+			if err := cmd.Run(); err != nil {
+				return harness.Violatef("c11/tool-fails", "disivg -o fails (%v) on input %d when TMPDIR is on another file system than the output file", err, i)
+			}
+			if got, _ := os.ReadFile(out); !bytes.Equal(got, want) {
+				return harness.Violatef("c11/tool-file", "disivg -o with TMPDIR on another file system: the file differs from the listing of input %d", i)
+			}
+		}
 		// the same bytes read from a named pipe (the size the file system reports is not the
 		// length of the content)
 		fifo := src + ".fifo"
@@ -730,7 +742,11 @@ func checkTool(c ToolCase) error {
 			go func() {
 				defer close(done)
 				if f, err := os.OpenFile(fifo, os.O_WRONLY, 0); err == nil {
-					f.Write(in)
+					// a producer that delivers the graphic in two pieces with a pause
+					half := len(in) / 2
+					f.Write(in[:half])
+					time.Sleep(30 * time.Millisecond)
+					f.Write(in[half:])
 					f.Close()
 				}
 			}()
